@@ -480,7 +480,111 @@ theorem ts_vargmax_exact (sqrt : Rat → Rat) (sh : Shape) (xs : List (Option Ra
 
 
 theorem cmp_closures_present :
-    ∀ n ∈ ["ts_vmin", "ts_vmax", "ts_vargmin", "ts_vargmax"], n ∈ Gen.closures := by
+    ∀ n ∈ ["ts_vmin", "ts_vmax", "ts_vargmin", "ts_vargmax", "ts_vrank"], n ∈ Gen.closures := by
   simp [Gen.closures]
+
+/-! ## `ts_vrank` (cmp.rs): the recount loop, NaN-propagating rank arithmetic -/
+
+theorem rank_fold_inv (g : Nat → Option Rat) (x : Rat)
+    (f : Option Rat × Nat → Nat → Option Rat × Nat)
+    (hf : ∀ (a b : Nat) i, f (some (1 + (a : Rat)), 1 + b) i
+        = (some (1 + ((rankAcc g x (a, b) i).1 : Rat)), 1 + (rankAcc g x (a, b) i).2)) :
+    ∀ (l : List Nat) (a b : Nat), List.foldl f (some (1 + (a : Rat)), 1 + b) l
+      = (some (1 + (((List.foldl (rankAcc g x) (a, b) l).1 : Nat) : Rat)), 1 + (List.foldl (rankAcc g x) (a, b) l).2) := by
+  intro l
+  induction l with
+  | nil => intro a b; rfl
+  | cons i l ih =>
+    intro a b
+    simp only [List.foldl_cons]
+    rw [hf a b i]
+    exact ih _ _
+
+theorem ts_vrank_step (sqrt : Rat → Rat) (xs : List (Option Rat)) (len w mp : Nat) (pct rev : Bool)
+    (g : Gen.ts_vrank.St) (n : Nat) (c : Option Nat × Nat × Option Rat) (h : g.n = n) (hlen : 1 ≤ len)
+    (hc : c.2.1 ≥ min len w - 1 → c.1.isSome = true) :
+    (Gen.ts_vrank.step sqrt xs len w mp pct rev g c.1 c.2.1 c.2.2).1.n = (rankStep (C03.get xs) mp (min len w - 1) pct rev n c).1 ∧
+    Agree sqrt (Gen.ts_vrank.step sqrt xs len w mp pct rev g c.1 c.2.1 c.2.2).2 (rankStep (C03.get xs) mp (min len w - 1) pct rev n c).2 := by
+  obtain ⟨start, e, v⟩ := c
+  rcases g with ⟨gn⟩
+  simp only at h hc
+  subst h
+  have hl0 : ¬ len = 0 := by omega
+  cases v with
+  | none =>
+    simp only [Gen.ts_vrank.step, rankStep, hl0, decide_false, if_false, Bool.false_eq_true, uget_eq]
+    constructor
+    · by_cases he : e ≥ min len w - 1
+      · have hs := hc he
+        cases start with
+        | none => simp at hs
+        | some st => simp [he]
+      · simp [he]
+    · cases rev <;> cases pct <;> simp [Gen.lift2, Agree] 
+  | some x =>
+    simp only [Gen.ts_vrank.step, rankStep, hl0, decide_false, if_false, Bool.false_eq_true, uget_eq, Option.isSome_some, if_true]
+    constructor
+    · by_cases he : e ≥ min len w - 1
+      · have hs := hc he
+        cases start with
+        | none => simp at hs
+        | some st => simp [he]
+      · simp [he]
+    · have e0 : ((some (1 : Rat), 1) : Option Rat × Nat) = (some (1 + ((0 : Nat) : Rat)), 1 + 0) := by simp
+      rw [e0, rank_fold_inv (C03.get xs) x]
+      · simp only [rankCount]
+        generalize List.foldl (rankAcc (C03.get xs) x) (0, 0) (List.range' (start.getD 0) (e - start.getD 0)) = cnt
+        obtain ⟨c1, c2⟩ := cnt
+        by_cases hm : gn + 1 ≥ mp
+        · cases rev <;> cases pct <;> simp [hm, Gen.lift2, Agree]
+        · simp [hm, Agree]
+      · intro a b i
+        simp only [rankAcc]
+        cases hg : C03.get xs i with
+        | none => simp
+        | some y =>
+          simp only [decide_eq_true_eq]
+          by_cases h1 : y < x
+          · simp [h1, Gen.lift2]; ring
+          · by_cases h2 : y = x
+            · simp [h2]; ring
+            · simp [h1, h2]
+
+theorem runSt_sim_mem {σ τ γ β δ : Type} (f : σ → γ → σ × β) (g : τ → γ → τ × δ) (R : σ → τ → Prop) (A : β → δ → Prop)
+    (cs : List γ) (h : ∀ s t c, c ∈ cs → R s t → R (f s c).1 (g t c).1 ∧ A (f s c).2 (g t c).2) :
+    ∀ (s : σ) (t : τ), R s t → List.Forall₂ A (runSt f s cs) (runSt g t cs) := by
+  induction cs with
+  | nil => intro s t _; exact List.Forall₂.nil
+  | cons c cs ih =>
+    intro s t hr
+    obtain ⟨h1, h2⟩ := h s t c (List.mem_cons_self) hr
+    exact List.Forall₂.cons h2 (ih (fun s t c hc => h s t c (List.mem_cons_of_mem _ hc)) _ _ h1)
+
+theorem ts_vrank_window (len w : Nat) (h : 1 ≤ len) : Gen.ts_vrank.effWindow len w = min len w := by
+  have : ¬ len = 0 := by omega
+  simp [Gen.ts_vrank.effWindow, this]
+theorem ts_vrank_minPeriods (len w : Nat) (mp : Option Nat) (h : 1 ≤ len) :
+    Gen.ts_vrank.minPeriods len w mp = cmpMp mp w len := by
+  have : ¬ len = 0 := by omega
+  simp [Gen.ts_vrank.minPeriods, cmpMp, this]
+
+/-- the closure regenerated from the source of `ts_vrank` (the O(w) recount at every position)
+yields the average rank of the current element in its window, ascending or descending, optionally
+as a fraction -/
+theorem ts_vrank_exact (sqrt : Rat → Rat) (sh : Shape) (xs : List (Option Rat)) (w : Nat) (mp : Option Nat)
+    (pct rev : Bool) (hw : 1 ≤ w) :
+    List.Forall₂ (Agree sqrt)
+      (genRunIdx (Gen.ts_vrank.step sqrt xs xs.length w (Gen.ts_vrank.minPeriods xs.length w mp) pct rev)
+        (Gen.ts_vrank.init xs.length w) (idxCalls sh xs (Gen.ts_vrank.effWindow xs.length w)))
+      ((List.range xs.length).map fun i => Spec.tsRank (cmpMp mp w xs.length) pct rev (window xs i w)) := by
+  rcases Nat.eq_zero_or_pos xs.length with h0 | hpos
+  · have : xs = [] := List.length_eq_zero_iff.mp h0
+    subst this
+    simp [genRunIdx, idxCalls, runSt]
+  · rw [ts_vrank_window _ _ hpos, ts_vrank_minPeriods _ _ _ hpos, ← C03.vrank_exact sh xs w mp pct rev hw]
+    unfold tsVrank genRunIdx
+    exact runSt_sim_mem _ _ (fun (g : Gen.ts_vrank.St) (n : Nat) => g.n = n) (Agree sqrt) _
+      (fun s t c hc hr => ts_vrank_step sqrt xs xs.length w _ pct rev s t c hr hpos
+        (vrank_unwrap_safe sh xs w hw c hc)) _ _ (by simp [Gen.ts_vrank.init])
 
 end Tv.C03Gen
